@@ -9,6 +9,7 @@ import SamVerif.Drive.C10
 import SamVerif.Drive.C18
 import SamVerif.Drive.C17
 import SamVerif.Drive.C19
+import SamVerif.Drive.C14
 open SamVerif.Drive
 
 def dispatch (line : String) : String :=
@@ -20,6 +21,7 @@ def dispatch (line : String) : String :=
     else if k.startsWith "c18." then C18.handle k args impl
     else if k.startsWith "c17." then C17.handle k args impl
     else if k.startsWith "c19." then C19.handle k args impl
+    else if k.startsWith "c14." then C14.handle k args impl
     else "bad-op"
   | _ => "bad-op"
 
